@@ -4,6 +4,7 @@ patch="$1"; shift
 cd /repo || exit 9
 if ! git diff --quiet; then echo "REPO DIRTY, abort"; exit 9; fi
 git apply "$patch" || { echo "patch does not apply"; exit 8; }
+mkdir -p /tmp/verif_scratch && cp /verif/known_findings.jsonl /tmp/verif_scratch/
 trap 'git -C /repo checkout -- . ; git -C /repo clean -fdq' EXIT
 for p in "$@"; do
   out=$(/verif/bin/qverif check -prop "$p" -verif /tmp/verif_scratch 2>&1); code=$?
